@@ -2,11 +2,20 @@ import AsynqModel.Lib.Generator
 import AsynqModel.Proofs.Generator
 import AsynqModel.Proofs.GeneratorRel
 import AsynqModel.Proofs.GeneratorNest
+import AsynqModel.Proofs.GeneratorExact
 /-!
 # C17  Async generators deliver their Values in order, and only those
 
 Theorems about the model `AsynqModel.Generator` of asynq/generator.py, for every generator body (any list of
 `await` / `value v` steps), every `n` and every history of caller operations.
+
+What is NOT in these theorems (checked on the implementation side only, by the correspondence run): the observation
+field `bad` (awaits resumed with the awaited result, generator arguments delivered, another generator of the same
+function undisturbed) is the literal 0 in the model - `_send_inner`'s `yield_result` plumbing is not modelled - so
+`C17_spec_holds` says nothing about those three clauses of the observer; re-entrant advances and how far the INNER
+generators of a nested generator are advanced are direct evaluations in the driver (`reenterExpected`, `innerLevels`).
+Theorems that hold by construction of the model are marked BY CONSTRUCTION in their docstring (and listed apart in
+harness/checks/c17.py): their content is the correspondence.
 
 Scope: the statement is about bodies WITHOUT a `Value(END_OF_GENERATOR)` item (`noMarker b`, an explicit hypothesis of
 the theorems about delivered Values).  For a body with such an item the clauses "all the Values are returned" and
@@ -153,7 +162,10 @@ theorem C17_guard_started (s : St) (k : Nat) (b : Bool) (hk : s.futs[k]? = some 
 
 /-- in every state a history reaches (any operations, body without marker payload): position accounting, the
     underlying generator is stopped only at its end, and an uncomputed task the caller holds is the one in `last_task`
-    (the hypothesis `hl` of `C17_guard_started`) - so at most one task is ever uncomputed -/
+    (the hypothesis `hl` of `C17_guard_started`) - so at most one task is ever uncomputed.
+    `hm` is PROOF-TECHNICAL (the proof goes through the refinement relation `Rel`, which carries `noMarker`); no
+    counterexample is known: the three invariants hold on every body of length ≤ 3 over {await t/f, value, valueEnd}
+    for all histories of length ≤ 4 over 11 operations (second audit, bounded check) -/
 theorem C17_reachable (b : Body) (hm : noMarker b = true) (ops : List Op) :
     let s := finalState (init b) ops
     s.pulled + s.rest.length = b.length ∧ (s.stopped = true → s.rest = []) ∧
@@ -198,10 +210,13 @@ theorem C17_take_repeat (b : Body) (ns : List Nat) (hm : noMarker b = true) :
 /-- what a nested generator IS: the documented consumer loop (`for task in inner: value = yield task; if value is
     END_OF_GENERATOR: continue; yield Value(value)`), run as the Python generator of an outer `_AsyncGenerator` over the
     model of the inner generator (`outerResume`: next(inner) = `send`, the yielded inner task is computed by
-    `sendInner`, it parks its awaiter iff `startTask` parks), yields exactly the steps `wrap b` and then ends - for
-    every inner body (also with marker payloads, which the loop skips) -/
-theorem C17_nested_loop (b : Body) : outerBody (2 * b.length + 1) (init b) .atFor = wrap b :=
-  ((outerBody_spec b.length b (Nat.le_refl _) 0 false [] _ (by simp) (Nat.le_refl _)).1 none rfl)
+    `sendInner`, it parks its awaiter iff `startTask` parks), yields exactly the steps `wrap b` - for every inner body
+    (also with marker payloads, which the loop skips) and EVERY bound `n ≥ 2·|b| + 1` on the number of steps: the list
+    is not a truncation by the bound (`outerBody` stops at the first exception the loop raises; that this exception is
+    the StopIteration of the exhausted inner generator is `outerFor_nil` in Proofs/GeneratorNest.lean, not restated
+    here) -/
+theorem C17_nested_loop (b : Body) (n : Nat) (h : 2 * b.length + 1 ≤ n) : outerBody n (init b) .atFor = wrap b :=
+  ((outerBody_spec b.length b (Nat.le_refl _) 0 false [] n (by simp) h).1 none rfl)
 
 /-- nested generators (`k` levels of that loop) deliver exactly the Values of the innermost body: the nested body
     has no marker payload, the same payloads, and `list_of_generator` / `take_first` return them -/
@@ -224,6 +239,26 @@ theorem C17_nested (k : Nat) (b : Body) (hm : noMarker b = true) (n : Nat) :
 theorem C17_spec_holds (b : Body) (hm : noMarker b = true) (ops : List Op) : spec b (run (init b) ops) = true := by
   obtain ⟨w', hw⟩ := watchRun_ok b.length ops (watchInit b) (init b) (rel_init b hm)
   simp [spec, hw, hm]
+
+/-- **the observer is exact**: for a body without marker payload, `spec` accepts a list of observations IF AND ONLY IF
+    it is the model's run of the operations it records - every field of every observation (result, sibling result and
+    whether the held task was computed, items pulled, exhaustion flag, `bad = 0`), for every operation including
+    `send` and `par`.  So there is no wrong observation the observer accepts (the proof: `watchStep` accepts at most one
+    observation per reference state and operation, `watchStep_det`, and it accepts the model's, `rel_step`).  In
+    particular a rejected `send(x)` that moved ANYTHING, or was refused with another exception than TypeError, or a
+    fresh generator treating `send(x)` as `next()` are rejected (the laxities the second audit listed). -/
+theorem C17_spec_exact (b : Body) (hm : noMarker b = true) (obs : List Obs) :
+    spec b obs = true ↔ obs = run (init b) (obs.map (·.op)) := by
+  constructor
+  · intro h
+    refine watchRun_exact b.length obs (watchInit b) (init b) (rel_init b hm) ?_
+    simp only [spec, hm, Bool.true_and] at h
+    cases hw : watchRun b.length (watchInit b) obs with
+    | ok w' => exact ⟨w', rfl⟩
+    | error e => simp [hw] at h
+  · intro h
+    rw [h]
+    exact C17_spec_holds b hm _
 
 /-- why `noMarker` is a hypothesis and not a defect: for a body with a `Value(END_OF_GENERATOR)` item NO result
     satisfies both "list_of_generator returns all the Values" and "END_OF_GENERATOR does not appear in the result" -/
@@ -269,43 +304,61 @@ theorem C17_loops_within_fuel (s : St) (n : Nat) :
     and the observer clause `take-zero`. -/
 theorem C17_take_zero (s : St) : takeFirst s 0 = (s, .lst []) := takeFirst_zero s
 
-/-- the rarely used entry point `send(x)` with `x` not None, on a generator that has not started (`St.fresh`: nothing
-    pulled, not exhausted, no uncomputed task): it is rejected with TypeError and NOTHING has moved - in particular the
-    generator is not marked as stopped - for every such state (any body) -/
+/-- BY CONSTRUCTION of the model (`sendVal` returns the state `s` literally in its TypeError branch): the rarely used
+    entry point `send(x)` with `x` not None, on a generator that has not started (`St.fresh`: nothing pulled, not
+    exhausted, no uncomputed task) is rejected with TypeError and NOTHING has moved - in particular the generator is
+    not marked as stopped.  That nothing moves is an ASSUMPTION of the model, validated by the correspondence run and
+    enforced on the implementation by the observer clause `send-rejected` (what `C17_spec_exact` says about that
+    clause is the content). -/
 theorem C17_send_rejected (s : St) (h : s.fresh = true) :
     observe s .send =
       (s, { op := .send, res := .raised .typeError, sib := none, pos := s.pulled, fin := s.stopped, bad := 0 }) := by
   simp [observe, sendVal_eq, h]
 
-/-- ... and on every other state `send(x)` is `next()` (guard, exhaustion, or the body - suspended at a
-    `yield Value(...)` whose result it ignores - is resumed) -/
+/-- BY CONSTRUCTION of the model (the last branch of `sendVal` is `next s`; the first two are the first two of `send`):
+    on every other state `send(x)` is `next()` -/
 theorem C17_send_started (s : St) (h : s.fresh = false) : sendVal s = next s := by
   simp [sendVal_eq, h]
 
-/-- a rejected advance does not make the generator lose its Values: after any number of `send(x)` calls on a fresh
-    generator the generator is exactly as it was created, so `list_of_generator` still returns all the Values and
-    `take_first(gen, n)` the first `n` - for every body without marker payload, every `k` and `n` -/
-theorem C17_send_then_iterate (b : Body) (hm : noMarker b = true) (k n : Nat) :
+/-- BY CONSTRUCTION (iterating `C17_send_rejected`), for EVERY body (no hypothesis): any number of `send(x)` calls on a
+    generator that has not started are all rejected with TypeError and leave it exactly as it was created -/
+theorem C17_send_fresh_noop (b : Body) (k : Nat) :
     finalState (init b) (List.replicate k .send) = init b ∧
-      (run (init b) (List.replicate k .send)).all (fun o => o.res == .raised .typeError) = true ∧
-      (listOf (finalState (init b) (List.replicate k .send))).2 = .lst (payloads b) ∧
-      (takeFirst (finalState (init b) (List.replicate k .send)) n).2 = .lst ((payloads b).take n) := by
+      (run (init b) (List.replicate k .send)).all (fun o => o.res == .raised .typeError) = true := by
   have hf : (init b).fresh = true := by simp [St.fresh, St.blocked, init]
-  have h1 : ∀ k, finalState (init b) (List.replicate k .send) = init b := by
-    intro k
-    induction k with
+  constructor
+  · induction k with
     | zero => rfl
     | succ j ih => simp only [List.replicate_succ, finalState, C17_send_rejected _ hf]; exact ih
-  have h2 : ∀ k, (run (init b) (List.replicate k .send)).all (fun o => o.res == .raised .typeError) = true := by
-    intro k
-    induction k with
+  · induction k with
     | zero => rfl
     | succ j ih => simp only [List.replicate_succ, run, C17_send_rejected _ hf, List.all_cons]; simpa using ih
-  have h1 := h1 k
-  have h2 := h2 k
-  refine ⟨h1, h2, ?_, ?_⟩
-  · rw [h1]; exact (C17_list b hm).1
-  · rw [h1]; exact (C17_take b n hm).1
+
+/-- corollary of `C17_send_fresh_noop` (by construction) and `C17_list` / `C17_take`: a rejected advance does not make
+    the generator lose its Values - for every body without marker payload, every `k` and `n` -/
+theorem C17_send_then_iterate (b : Body) (hm : noMarker b = true) (k n : Nat) :
+    (listOf (finalState (init b) (List.replicate k .send))).2 = .lst (payloads b) ∧
+      (takeFirst (finalState (init b) (List.replicate k .send)) n).2 = .lst ((payloads b).take n) := by
+  rw [(C17_send_fresh_noop b k).1]
+  exact ⟨(C17_list b hm).1, (C17_take b n hm).1⟩
+
+/-- the observer clause for a rejected `send(x)` has teeth for EVERY body with a Value (what seeded change C17-9 does:
+    the refused advance marks the generator as stopped, so the Values are lost): whatever else is observed, a history
+    that starts with a rejected send followed by `list_of_generator` returning no Values is rejected -/
+theorem C17_send_rejected_keeps_values (b : Body) (hm : noMarker b = true) (hv : payloads b ≠ [])
+    (o1 o2 : Obs) (rest : List Obs) (h1 : o1.op = .send) (h2 : o2.op = .list) (hr : o2.res = .lst []) :
+    spec b (o1 :: o2 :: rest) = false := by
+  cases hs : spec b (o1 :: o2 :: rest) with
+  | false => rfl
+  | true =>
+    exfalso
+    have he := (C17_spec_exact b hm _).1 hs
+    have hf : (init b).fresh = true := by simp [St.fresh, St.blocked, init]
+    simp only [List.map_cons, h1, h2, run, C17_send_rejected _ hf, List.cons.injEq] at he
+    have h3 : o2.res = (observe (init b) .list).2.res := by rw [he.2.1]
+    have h4 : (observe (init b) .list).2.res = (listOf (init b)).2 := rfl
+    rw [hr, h4, (C17_list b hm).1] at h3
+    exact hv (by simpa using h3.symm)
 
 /-! ## non-vacuity -/
 -- a history that exercises the guard, a task with consecutive awaits, END_OF_GENERATOR, repeated take_first
@@ -325,6 +378,17 @@ example : (run (init [.await true, .value 1]) [.next, .take 0, .compute 0, .take
 -- C17_take_stops_at_value: hypothesis satisfiable, the prefix is non-trivial
 example : (payloads [.await true, .value 1, .await false, .value 2, .value 3]).length > 1 ∧
     (takeFirst (init [.await true, .value 1, .await false, .value 2, .value 3]) 2).1.rest = [.value 3] := by decide
+-- ... and its hypothesis `m < number of Values` is necessary: with fewer Values take_first runs the generator off its
+-- end, and what it pulled need not end with a Value (here it ends with the trailing await)
+example : ¬ ∃ pre v, [Step.value 1, .await true] = pre ++ .value v :: (takeFirst (init [.value 1, .await true]) 2).1.rest := by
+  have hr : (takeFirst (init [.value 1, .await true]) 2).1.rest = [] := by decide
+  rw [hr]
+  rintro ⟨pre, v, h⟩
+  have := congrArg List.getLast? h
+  simp at this
+-- C17_nested_loop: the bound on `n` is necessary (`outerBody` lists at most `n` steps)
+example : outerBody 0 (init [.value 1]) .atFor ≠ wrap [.value 1] ∧ outerBody 2 (init [.value 1]) .atFor = wrap [.value 1] ∧
+    outerBody 3 (init [.value 1]) .atFor = wrap [.value 1] := by decide
 -- C17_guard_started: hk and hl hold in a reachable state, both branches of startTask are taken
 example : let s := (finalState (init [.await true, .value 1]) [.next]);
     s.futs[0]? = some (.pending true) ∧ s.lastTask = some (.handle 0) ∧ (startTask s true).2 = none := by decide
@@ -406,15 +470,45 @@ example : spec [.value 1, .value 2] [ob .send (.raised .typeError) 0 false, ob (
   decide
 example : spec [.value 1, .value 2] [ob .send (.raised .typeError) 0 false, ob .next (.raised .stopIteration) 0 false]
     = false := by decide
--- (a send that is not refused but is a correct next() changes the code, not the property: accepted by the observer,
---  reported by the correspondence)
-example : spec [.value 1] [ob .send (.fut (some (.val 1))) 1 false] = true := by decide
+-- (second audit, the `send` laxity) REJECTED since round 5: a fresh generator that treats send(x) as a correct next(),
+-- also on the empty body (StopIteration + exhausted), and a refusal with another exception than TypeError (which
+-- gets a clause name of its own) - the only accepted observation is the model's
+example : spec [.value 1] [ob .send (.fut (some (.val 1))) 1 false] = false ∧
+    specClause [.value 1] [ob .send (.fut (some (.val 1))) 1 false] = "send-rejected@send" := by decide
+example : spec [] [ob .send (.raised .stopIteration) 0 true] = false ∧
+    spec [] [ob .send (.raised .typeError) 0 false, ob .next (.raised .stopIteration) 0 true] = true := by decide
+example : spec [.value 1] [ob .send (.raised .valueError) 0 false] = false ∧
+    spec [.value 1] [ob .send (.raised .other) 0 false] = false ∧
+    spec [.value 1] [ob .send (.raised .runtimeError) 0 false] = false ∧
+    specClause [.value 1] [ob .send (.raised .valueError) 0 false] = "send-refusal-class@send" := by decide
+-- C17_spec_exact, both directions on a history with every kind of operation; one flipped field is rejected
+example : spec [.await true, .value 1, .await false, .value 2]
+      (run (init [.await true, .value 1, .await false, .value 2])
+        [.send, .take 0, .next, .par 0 (.take 1), .send, .compute 1, .list, .send]) = true ∧
+    spec [.await true, .value 1] [ob .send (.raised .typeError) 0 false, ob .next (.fut none) 1 false,
+      ob (.par 0 .list) (.item (.val 1)) 2 false (some (false, .raised .runtimeError)),
+      { (ob .next (.raised .stopIteration) 2 true) with bad := 1 }] = false := by decide
+-- C17_send_rejected_keeps_values: the hypotheses are satisfiable (seeded change C17-9's observations)
+example : payloads [.await true, .value 1] ≠ [] ∧ (ob .send (.raised .typeError) 0 false).op = .send ∧
+    (ob .list (.lst []) 0 false).res = .lst [] := by decide
+-- C17_send_rejected_keeps_values: `hv` is necessary - for a body without Values the empty list is the right answer
+example : spec [.await true] [ob .send (.raised .typeError) 0 false, ob .list (.lst []) 1 true] = true := by decide
+-- nested generators: how far the inner generator has been advanced when the outer one has yielded p items
+-- (`innerAt`, evaluated by the driver; no theorem): take_first(outer, 1) leaves the INNER generator behind its first
+-- Value too, an outer task that has not run leaves the inner task not run
+example : wrap [.await true, .await false, .value 1, .value 2] = [.await true, .value 1, .await false, .value 2] ∧
+    innerAt [.await true, .await false, .value 1, .value 2] 0 false = (0, false) ∧
+    innerAt [.await true, .await false, .value 1, .value 2] 1 false = (1, false) ∧
+    innerAt [.await true, .await false, .value 1, .value 2] 2 false = (3, false) ∧
+    innerAt [.await true, .await false, .value 1, .value 2] 4 false = (4, false) ∧
+    innerAt [.await true, .await false, .value 1, .value 2] 4 true = (4, true) ∧
+    innerLevels [.value 1, .await true] 2 5 true = [(3, true), (2, true)] := by decide
 example : spec [.value 1] [ob .send (.fut (some (.val 2))) 1 false] = false := by decide
 example : spec [.value 1] [ob .send (.raised .stopIteration) 0 false] = false := by decide
 example : spec [.value 1] [ob .send (.raised .typeError) 1 false] = false := by decide
 example : spec [.value 1, .value 2] [ob .send (.raised .typeError) 0 false, ob .list (.lst [.val 1, .val 2]) 2 true]
     = true := by decide
--- C17_send_rejected / C17_send_started: both hypotheses are satisfiable
+-- C17_send_rejected / C17_send_started (by construction): both hypotheses are satisfiable
 example : (init [.value 1]).fresh = true ∧ (finalState (init [.value 1]) [.next]).fresh = false := by decide
 -- re-entrant advances from the body (direct expectation, no theorem): inside the task -> RuntimeError (the guard),
 -- inside send() -> ValueError (CPython), take_first(gen, 0) -> []; a log with a successful re-entrant advance is rejected
